@@ -175,6 +175,8 @@ def run(case):
         out.cls("partial-dimension-split")
     if case.get("legs"):
         out.cls("history-cut-into-%d-runs" % min(len(case["legs"]) + 1, 4))
+    if case.get("rerun"):
+        out.cls("second-run-on-the-same-solver-object")
     out.info = dict(max_steps=st_["steps"], max_areas=st_["maxareas"], max_lmax=max(sa.lmax))
     return out
 
